@@ -3,7 +3,7 @@ CONSTANTS
   Mode = "spread"
   MaxFiles = 2
   GenKinds = {"use", "forward", "import"}
-  GenPre = {"none"}
-  GenWhere = {"root", "sub"}
+  GenPre = {"dir", "lp1", "lp2"}
+  GenWhere = {"root"}
 INVARIANTS Laws Emit
 CHECK_DEADLOCK FALSE
